@@ -313,19 +313,40 @@ func newHist(id int, seed int64, chain string, r *lib.Rand, realPath bool) *hist
 	return h
 }
 
+// store puts an object with arbitrary contents into the real store through the keeper's own store functions.
+// It never overwrites a stored object: on the chain an oracle set / batch / bridge call is written once under a fresh
+// nonce and only ever deleted, so a confirm in the store always refers to the object it was made for.  (Overwriting
+// one that already had confirms produced a state no history reaches: the old confirms then "did not cover the stored
+// object" - a false alarm of the after-import verification in a thorough run.)
 func (h *hist) store(o *Obj) {
 	h.blockNo++
 	ctx := h.c.Ctx
+	k := h.x.Keeper
 	switch v := o.ToReal(h.chain, h.blockNo).(type) {
 	case *crosschaintypes.OracleSet:
 		if v.Nonce <= 1 {
 			v.Nonce = 2
 		}
-		h.x.Keeper.StoreOracleSet(ctx, v)
+		for k.GetOracleSet(ctx, v.Nonce) != nil {
+			v.Nonce++
+			h.log = append(h.log, "store: oracle-set nonce taken, next one used")
+		}
+		k.StoreOracleSet(ctx, v)
 	case *crosschaintypes.OutgoingTxBatch:
-		lib.Must(h.x.Keeper.StoreBatch(ctx, v))
+		for k.GetOutgoingTxBatch(ctx, v.TokenContract, v.BatchNonce) != nil {
+			v.BatchNonce++
+			h.log = append(h.log, "store: batch nonce taken, next one used")
+		}
+		lib.Must(k.StoreBatch(ctx, v))
 	case *crosschaintypes.OutgoingBridgeCall:
-		h.x.Keeper.SetOutgoingBridgeCall(ctx, v)
+		for {
+			if _, found := k.GetOutgoingBridgeCallByNonce(ctx, v.Nonce); !found {
+				break
+			}
+			v.Nonce++
+			h.log = append(h.log, "store: bridge-call nonce taken, next one used")
+		}
+		k.SetOutgoingBridgeCall(ctx, v)
 	}
 }
 
@@ -787,7 +808,7 @@ func (h *hist) step(rep *lib.Report, stepNo int) stepResult {
 	}
 	_ = realCP
 
-	h.checkAttribution(rep, post, false, "after-confirm", replay)
+	h.checkAttribution(rep, post, true, "after-confirm", replay)
 	for oa, o := range pre.oracles {
 		if pre.byBridger[o.BridgerAddress] != oa {
 			rep.Count("oracle record and by-bridger index disagree (state seen before a step)")
